@@ -28,6 +28,10 @@ CHECKS = {
                 mc_cov=lambda cn: dict(states=cn.get('C19/ref:states', 0) + cn.get('C19/asan:states', 0), transitions=cn.get('C19/ref:transitions', 0) + cn.get('C19/asan:transitions', 0),
                                        traces_validated_against_impl=cn.get('C19/ref:lifecycles', 0) + cn.get('C19/asan:lifecycles', 0),
                                        explanation='every word of the lifecycle automaton is executed on the real library; transitions = library calls made, traces = complete lifecycles judged at their accepting state')),
+    'C20': dict(level='model_checking', runs=_e1v('C20', 'h_fb', ('ref', 'asan')), percase=60, deadline=dict(quick=150, thorough=1500),
+                mc_cov=lambda cn: dict(states=cn.get('C20/ref:states', 0) + cn.get('C20/asan:states', 0), transitions=cn.get('C20/ref:transitions', 0) + cn.get('C20/asan:transitions', 0),
+                                       traces_validated_against_impl=cn.get('C20/ref:words', 0) + cn.get('C20/asan:words', 0),
+                                       explanation='states = abstract typestates {none, h0, h1, both live} per configuration; every word (trace) is executed call by call on the real bridge')),
     'C07': dict(level='fault_enumeration', runs=_e1('C07', 'h_e2'), percase=5, deadline=dict(quick=150, thorough=1500)),
     'C08': dict(level='fault_enumeration', runs=_e1('C08', 'h_e2'), percase=5, deadline=dict(quick=150, thorough=1500)),
 }
@@ -109,3 +113,7 @@ META['C15'] = dict(engine='E1 small-scope enumerator', design_ref='5/C15', techn
 META['C19'] = dict(engine='E3 history explorer', design_ref='5/C19', technique='exhaustive enumeration of all words of the documented lifecycle automaton up to a depth, executed on the real library with an allocation ledger, red zones and ASan/UBSan',
     text='Pipeline words (create, get_perm_c x4, sp_preorder, xgstrf under library allocation / ample workspace / too-small workspace / size query / single and persistent k-th growth failures, up to three of {xgstrs N, xgstrs T, xgscon, xgsrfs, pivot growth + space query}, optional SamePattern_SameRowPerm refactorization, destroy) and driver words (all three-call sequences over xgssv, xgssvx in all Fact modes / storage modes / query / faults, xgsisx likewise) on six matrices incl. an exactly singular one, fill estimates 1..8 (arrays ending exactly at capacity are counted), 4 types: no sanitizer report, no free of a foreign or freed pointer, red zones intact, and the ledger is empty once the caller has destroyed what it was handed.',
     note='Uninitialised-value dependence is approximated by the 0xA5 / 0xDD fill plans and bitwise differential checks of C06/C07/C09 (MSan build not used). Known finding F3 (xgstrf/xgsitrf leak on a mid-factorization growth failure) and F8 are reported as KNOWN-FINDING; F1, F2, F7, F18, F26 were repaired by fix: commits.')
+
+META['C20'] = dict(engine='E3 history explorer', design_ref='5/C20', technique='exhaustive enumeration of all valid operation words of the handle protocol up to a depth, executed on the real Fortran-callable entry point',
+    text='For every configuration all words over {factor(h,m), solve(h,nrhs in {1,2},ldb in {n,n+2}), free(h)} on two handles and two matrices up to depth 6 (quick) / 7 (thorough) that respect the protocol and end with everything freed are executed on c_fortran_xgssv_: the caller\'s 1-based arrays are bit-identical after factor; every solve meets the C01 residual bound for its handle\'s matrix and agrees with xgssv on the same data (bitwise equality is recorded); padding rows untouched; results do not depend on what the other handle did; the allocation ledger is empty after the last free.',
+    note='The bridge sources are compiled by the private build (enable_fortran is OFF in the tested configuration). d and z in quick, all four types in thorough; ref and ASan builds.')
